@@ -301,6 +301,9 @@ func run(p program, sh *shadow) string {
 }
 
 func fail(t interface{ Fatalf(string, ...any) }, p program, plan []int, msg string) {
+	if strings.Contains(msg, "did not finish within") {
+		kit.Abort(fmt.Sprintf("C12 violated: %s\n  program: %s\n  faults injected at primitive call indices %v", msg, p, plan))
+	}
 	kit.Rec.Violation(msg)
 	t.Fatalf("C12 violated: %s\n  program: %s\n  faults injected at primitive call indices %v", msg, p, plan)
 }
